@@ -34,6 +34,9 @@ func init() {
 		Rule{ID: "R20e", Doc: "decoded buffers have one owner (a double release corrupts the next accepted message; shared with C20)", Floor: 1, Run: r20e},
 		Rule{ID: "R20g", Doc: "a record returned to its pool is reset completely (a stale name or TTL field re-emerges in the next decoded or built record; shared with C20)", Floor: 12, Run: r20g},
 		Rule{ID: "R02g", Doc: "short-buffer guards of the codec primitives are exact (no well-formed input rejected)", Floor: 8, Run: r02g},
+		Rule{ID: "R12e", Doc: "PopEDNS0 is a correct swap-remove (no nil record left, nothing after the OPT dropped)", Floor: 5, AllVariants: true, Run: r12e},
+		Rule{ID: "R20i", Doc: "a decoded value handed to its record is not released again by the decoder (shared with C20)", Floor: 8, Run: r20i},
+		Rule{ID: "R02h", Doc: "the name decoder returns the offset after the first pointer / the end of a pointer-free name", Floor: 3, AllVariants: true, Run: r02h},
 	)
 }
 
